@@ -73,11 +73,10 @@ Theorem C08_simulate_preserves_total : forall d ds, well_formed d ds -> mass (ex
 Proof. exact simulate_total. Qed.
 Print Assumptions C08_simulate_preserves_total.
 
-(* Full statement (all detector lists):  perf = un-normalised kept mass, every returned state passes the filter,
-   the result has mass 1.  It is FALSE for the all-PNR shortcut (C08_simulate_filter_refuted); it holds on the
-   complement: *)
-Theorem C08_simulate_bookkeeping_partial : forall d ds minp,
-  d <> [] -> detection_type ds <> TPnr -> well_formed d ds -> mass d = 1 ->
+(* FULL statement, every detector list (all-PNR with a filter included; /repo since d3d39a64):
+   perf = un-normalised kept mass, kept + dropped = 1, every returned state passes the filter, the result has mass 1
+   and is the conditional law. *)
+Theorem C08_simulate_bookkeeping : forall d ds minp, well_formed d ds -> mass d = 1 ->
   let out := expand d ds in
   let res := fst (simulate d ds minp) in
   let perf := snd (simulate d ds minp) in
@@ -87,18 +86,34 @@ Theorem C08_simulate_bookkeeping_partial : forall d ds minp,
   Forall (fun e => keep minp (fst e) = true) res /\
   (perf <> 0 -> mass res = 1 /\ forall t, prob_of t res = (if keep minp t then prob_of t out else 0) / perf).
 Proof. exact simulate_bookkeeping. Qed.
-Print Assumptions C08_simulate_bookkeeping_partial.
+Print Assumptions C08_simulate_bookkeeping.
 
-Theorem C08_simulate_filter_refuted : exists d ds k,
+(* HISTORICAL, about the code before /repo commit d3d39a64 ([simulate_old_code], all-PNR shortcut taken whatever the
+   filter): the statement above failed there; the defect is repaired and the witness is a regression case of the driver *)
+Theorem C08_simulate_filter_refuted_old_code : exists d ds k,
   mass d = 1 /\ well_formed d ds /\ Forall proper ds /\
-  snd (simulate d ds (Some k)) = 1 /\ exists e, In e (fst (simulate d ds (Some k))) /\ keep (Some k) (fst e) = false.
-Proof. exact simulate_filter_refuted. Qed.
-Print Assumptions C08_simulate_filter_refuted.
+  snd (simulate_old_code d ds (Some k)) = 1 /\
+  exists e, In e (fst (simulate_old_code d ds (Some k))) /\ keep (Some k) (fst e) = false.
+Proof. exact simulate_filter_refuted_old_code. Qed.
+Print Assumptions C08_simulate_filter_refuted_old_code.
+Theorem C08_old_code_differs_only_on_all_pnr : forall d ds minp,
+  detection_type ds <> TPnr -> simulate_old_code d ds minp = simulate d ds minp.
+Proof. exact simulate_old_code_same. Qed.
+Print Assumptions C08_old_code_differs_only_on_all_pnr.
+Theorem C08_witness_on_current_code :
+  let r := simulate [([1%nat; 0%nat], Q2Qc (1#2)); ([0%nat; 0%nat], Q2Qc (1#2))] [Some Pnr; None] (Some 1%nat) in
+  map fst (fst r) = [[1%nat; 0%nat]] /\ snd r = Q2Qc (1#2).
+Proof. exact simulate_witness_current_code. Qed.
+Print Assumptions C08_witness_on_current_code.
 
-Theorem C08_simulate_all_pnr_is_identity : forall d ds minp, detection_type ds = TPnr ->
-  simulate d ds minp = (d, 1) /\ forall s, length s = length ds -> tensor s ds = [(s, 1)].
+(* with only PNR / absent detectors the kernel is the identity; without a filter the input is returned as it is *)
+Theorem C08_all_pnr_kernel_is_identity : forall d ds, detection_type ds = TPnr -> well_formed d ds -> expand d ds = d.
+Proof. exact expand_pnr. Qed.
+Print Assumptions C08_all_pnr_kernel_is_identity.
+Theorem C08_simulate_all_pnr_no_filter : forall d ds, detection_type ds = TPnr ->
+  simulate d ds None = (d, 1) /\ forall s, length s = length ds -> tensor s ds = [(s, 1)].
 Proof. exact simulate_pnr. Qed.
-Print Assumptions C08_simulate_all_pnr_is_identity.
+Print Assumptions C08_simulate_all_pnr_no_filter.
 
 (* get_detection_type / check_heralds_detectors *)
 Theorem C08_detection_type_common : forall ds t, ds <> [] -> Forall (fun d => otype d = t) ds -> detection_type ds = t.
@@ -118,5 +133,5 @@ Proof. exact check_heralds_spec. Qed.
 Print Assumptions C08_check_heralds_spec.
 
 Example C08_simulate_hypotheses_satisfiable : exists d ds,
-  d <> [] /\ detection_type ds <> TPnr /\ well_formed d ds /\ mass d = 1 /\ snd (simulate d ds (Some 2%nat)) <> 0.
+  well_formed d ds /\ mass d = 1 /\ snd (simulate d ds (Some 2%nat)) <> 0.
 Proof. exact simulate_hypotheses_satisfiable. Qed.
